@@ -97,7 +97,12 @@ def by1(ctx):
                 for c in b.calls:
                     if c.name.endswith('::len') and c.args and op_local(c.args[0]) is not None and ref_root(b, op_local(c.args[0])) == root:
                         srcs |= set(fl.call_result_nodes(c))
-            t = fl.forward({x for x in srcs}, skip_mem=True)
+            # the unit result of the write itself says nothing about the count: an error value travelling
+            # through a shared Result local must not make the Ok payload look counted
+            stop = set()
+            for w2 in ws:
+                stop |= set(fl.call_result_nodes(w2))
+            t = fl.forward({x for x in srcs}, skip_mem=True, stop=stop)
             reach_exits = [e for e in exits if e['point'] in b.reach_after(w.point)]
             ok = bool(srcs) and bool(reach_exits) and all(e['ops'] and fl.op_tainted(e['ops'][0], t) for e in reach_exits)
             ctx.check(ok, '%s:write#%d' % (b.path, seen), where(b, w.point), 'the length of the slice written flows to the byte count returned',
